@@ -107,6 +107,33 @@ def replay_state(args):
                     bad.append(("C07.excitation-optimum", dict(model="excitation", cls=r["cls"], kind="worse-than-probe", **where0), float(tbest), float(mine), r))
         except Exception as ex:
             bad.append(("C07.no-error", dict(model="excitation", exc=type(ex).__name__, **where0), None, repr(ex)[:200], None))
+    # the same abstract targets in another representation: integer dtype (photon counts).  Rows whose captures are whole
+    # numbers are handed over as int64; the answer must be the one for the float rows (in-gamut rows reproduced, the
+    # objective not worse than with float targets)
+    irows = [k for k in range(len(recs)) if np.all(B[k] == np.round(B[k]))]
+    irows = ([k for k in irows if recs[k]["cls"] == "interior"][:3] + [k for k in irows if recs[k]["cls"] != "interior"][:2])
+    for model, objf in (("poisson", poisson_nll), ("excitation", exc_obj)):
+        rws = irows if model == "poisson" else irows[:2]
+        if not rws:
+            continue
+        try:
+            Xi, Bpi = est.fit(B[rws].astype(np.int64), model=model)
+            Xf, _ = est.fit(B[rws].copy(), model=model)
+            Xi, Bpi, Xf = np.asarray(Xi, float), np.asarray(Bpi, float), np.asarray(Xf, float)
+            nfit += 2 * len(rws)
+        except Exception as ex:
+            bad.append(("C07.no-error", dict(model=model, dtype="int64", exc=type(ex).__name__, **where0), None, repr(ex)[:200], None))
+            continue
+        n0 = len(bad)
+        common(model, Xi, Bpi, rws)
+        for v in bad[n0:]:
+            v[1]["dtype"] = "int64"
+        for j, k in enumerate(rws):
+            pi, pf = Kmat @ (A @ Xi[j] + blv), Kmat @ (A @ Xf[j] + blv)
+            if np.all(pi > 0) and np.all(pf > 0):
+                oi, of = objf(B[k], pi), objf(B[k], pf)
+                if oi > of + TOL * (1 + abs(of)) * 0.5:
+                    bad.append(("C07.%s-optimum" % model, dict(model=model, cls=recs[k]["cls"], kind="int64-targets-worse-than-float-targets", **where0), float(of), float(oi), recs[k]))
     nfit += replay_back(dreye, st, s, nexc, bad, where0)
     return bad, nfit
 
